@@ -71,7 +71,47 @@ func runC10(c *Ctx) {
 			}
 		}
 	}
-	if rem == nil {
+	// alternative idiom: advance the same buffer by exactly L (bytes.Buffer.Next)
+	var nextCall ssa.CallInstruction
+	for _, ci := range allCalls(sl) {
+		if calleeName(ci.Common()) == "bytes.(*Buffer).Next" {
+			nextCall = ci
+		}
+	}
+	// the segments alias the buffer's backing array after hand-off: the buffer must be fresh per batch and never rewound
+	for _, ci := range allCalls(sl) {
+		cn := calleeName(ci.Common())
+		if (cn == "bytes.(*Buffer).Reset" || cn == "bytes.(*Buffer).Truncate") && buf != nil && (ci.Common().Args[0] == buf || samePhiFamily(ci.Common().Args[0], buf)) {
+			c.Bad("segment-buffer-fresh", key+":"+cn, ci.Pos(), "the payload buffer is rewound and reused although segments handed to the muxer still alias its bytes: a queued segment is overwritten by the next batch")
+		}
+	}
+	freshOK := false
+	var walkFresh func(v ssa.Value, d int)
+	walkFresh = func(v ssa.Value, d int) {
+		if d > 6 || v == nil {
+			return
+		}
+		switch x := v.(type) {
+		case *ssa.Phi:
+			for _, e := range x.Edges {
+				walkFresh(e, d+1)
+			}
+		case *ssa.Call:
+			if calleeName(&x.Call) == "bytes.NewBuffer" && isNilConst(x.Call.Args[0]) && inLoop(x.Block()) {
+				freshOK = true
+			}
+		case *ssa.Alloc:
+			if inLoop(x.Block()) {
+				freshOK = true
+			}
+		}
+	}
+	walkFresh(buf, 0)
+	c.Check(freshOK, "segment-buffer-fresh", key, nsCall.Pos(), "each batch is assembled in a buffer allocated inside the send loop", "the payload buffer outlives a batch: segments still queued in the muxer alias bytes that the next batch overwrites")
+	if rem == nil && nextCall != nil {
+		okNext := nextCall.Common().Args[1] == L && (nextCall.Common().Args[0] == buf || samePhiFamily(nextCall.Common().Args[0], buf))
+		c.Check(okNext, "segment-remainder", key, nextCall.Pos(), "the buffer is advanced by exactly the sent length L", "the buffer is advanced by "+desc(nextCall.Common().Args[1])+", not by the length of the prefix just sent")
+	} else if rem == nil {
 		c.Bad("segment-remainder", key, nsCall.Pos(), "the unsent remainder is not re-buffered as Bytes()[L:]")
 	} else {
 		c.Check(rem.Low == L && rem.High == nil && bufOf(rem.X) == buf, "segment-remainder", key, rem.Pos(), "remainder = same buffer's Bytes()[L:] with the same L as the prefix",
@@ -95,6 +135,9 @@ func runC10(c *Ctx) {
 		if strings.HasPrefix(ef.Fact, "call:bytes.(*Buffer).Len(") && strings.Contains(ef.Fact, ") > call:min(") {
 			// true edge must lead to the remainder block
 			if rem != nil && (ef.From.Succs[ef.Succ] == rem.Block() || ef.From.Succs[ef.Succ].Dominates(rem.Block())) {
+				okCont = true
+			}
+			if rem == nil && nextCall != nil && (ef.From.Succs[ef.Succ] == nextCall.Block() || ef.From.Succs[ef.Succ].Dominates(nextCall.Block())) {
 				okCont = true
 			}
 		}
